@@ -13,6 +13,7 @@ import re
 
 from .. import common
 from ..common import log
+from . import c10_res
 
 # target index -> (CPU name, MOMCPU value, segment id -> name, data statement, reservation statement)
 TARGETS = [
@@ -635,7 +636,7 @@ class FixedProg:
 
 def run(args):
     res = common.Result("C10", args.tier, args.seed, "proof")
-    bdir, audit, proof_problems = common.standard_setup(res, "C10", ["SegParams"])
+    bdir, audit, proof_problems = common.standard_setup(res, "C10", ["SegParams", "ListParams"])
     if bdir is None:
         return res.finish()
     ok = not any(p.startswith("driver does not build") for p in proof_problems)
@@ -745,23 +746,38 @@ def run(args):
                 corr_fail.append(dict(tag=tag, why="Lean model of asmallg.c/as.c vs real asl: %s pfile=%s" % (kv.get("mwhy"), kv.get("pfile")),
                                       source=src, request=short_req, answer=ans, asl=info))
 
+        # reservations of elements smaller / larger than the address unit (DN/DB/DW/DD/DQ with `?` and DUP groups on AVR, KCPSM,
+        # KCPSM3, Mico8 CODE and on byte-addressed segments): vlib/props/c10_res.py, driver mode c10r
+        rp = c10_res.run_part(args, bdir, wd, ok)
+        spec_fail += rp["spec_fail"]
+        corr_fail += rp["corr_fail"]
+        proof_problems += rp["problems"]
+
     res.coverage = common.proof_coverage(audit, "C10", [
         "translate/tables.py gen_segparams (segment parameters of SwitchTo_51/SwitchTo_3202x via clang AST, widths/error numbers via compiled dumper)",
         "correspondence: real asl vs Model/Addr.lean on generated programs (differential test); ORG flavour self-calibrated by a probe",
         "symbol naming (separator `_` / `.` of BuildStructName) is part of the harness (sym_name), not of the Lean model: the model identifies a symbol by the list of enclosing named structures",
-        "Spec/AddrSpec.lean: my reading of doc/pseudo-instructions.md"])
+        "Spec/AddrSpec.lean: my reading of doc/pseudo-instructions.md",
+        "reservation part: Spec/AddrRes.lean = my reading of the section DN,DB,DW,DD,DQ,DT (element count, DUP multiplies, packing into address units); "
+        "the unit sizes of the segments handed to the spec are those of the targets' documentation (table RT in c10_res.py), the model takes Grans[] from "
+        "Generated/ListParams.lean; correspondence: real asl vs Model/AddrRes.lean (DecodeIntelDx transcription of Model/DataExt.lean)"])
     res.coverage.update(
-        evaluations=agg["programs"], distinct_nontrivial=len(distinct),
+        evaluations=agg["programs"] + rp["evaluations"], distinct_nontrivial=len(distinct) + len(rp["distinct"]),
         rule="random interleavings (6..61 statements) of ORG/RORG/ALIGN[,fill]/DS/DB/SEGMENT/CPU/PHASE/DEPHASE/SAVE/RESTORE/LISTING/STRUCT/UNION/ENDSTRUCT with labels on "
              "8051 (byte granular, 5 segments) and 320C25 (word granular, 3 segments); after every statement $, MOMCPU, LISTON, MOMSEGMENT and the symbols it defines "
              "are read back; 30% of the sources have no CPU statement (target from `asl -cpu`), counter-setting statements (ORG/RORG/ALIGN/PHASE) are followed "
              "directly by SEGMENT <other> … SEGMENT <back> or CPU and then labelled code (at the very start of such sources and inside programs); every 5th program is structure-centred (nested STRUCT/UNION up to depth 3, named and nameless, DS/RES/`DB ?` fields, ALIGN/ORG/RORG "
              "inside, SAVE/RESTORE around and inside, a quarter of them under DOTTEDSTRUCTS ON); non-trivial = at least 8 statements of at least 4 different kinds; "
-             "distinct by statement list",
-        samples=samples, distribution=dict(statement_kinds=dist, structure_bodies=sagg, **agg), org_flavour_probe=dict(org_is_load_address=org_load, dollar=probe_val, align_zero_error_number=align_zero_err))
+             "distinct by statement list; plus (reservation part, c10_res.py) programs of 5..25 labelled DN/DB/DW/DD/DQ statements - pure reservations made of loose `?` and "
+             "nested `n DUP (...)` groups that start and end anywhere inside an address unit, constant statements as markers, a few refused mixtures - interleaved with "
+             "ORG/RORG/SEGMENT/label-only lines on AVR (CODE 16-bit units, DATA/EEDATA bytes), KCPSM (16-bit, big endian), KCPSM3 and Mico8 (32-bit units), Z80, 8051, 8086 "
+             "(DN: two nibbles per byte); the counter symbol, MOMSEGMENT and the statement's label are read back after every statement; non-trivial there = at least "
+             "one reservation whose DUP group starts inside an address unit",
+        samples=samples + rp["samples"], distribution=dict(statement_kinds=dist, structure_bodies=sagg,
+                                                         reservation_part=dict(dict(rp["agg"]), targets_and_stops=dict(rp["dist"]), generator=dict(rp["stats"])), **agg), org_flavour_probe=dict(org_is_load_address=org_load, dollar=probe_val, align_zero_error_number=align_zero_err))
     res.assumptions = ["segment sizes/initial values of the spec are the ORG table of the manual (MCS-51, 320C2x); the initial value 30h of the MCS-51 DATA segment is taken from the implementation (the table lists none)",
                        "MESSAGE lines inserted after every statement do not change the counters (they are statements with CodeLen = 0)"]
-    return common.conclude(res, proof_problems, spec_fail, corr_fail, agg["programs"])
+    return common.conclude(res, proof_problems, spec_fail, corr_fail, agg["programs"] + rp["evaluations"])
 
 
 def replay(args):
@@ -777,5 +793,5 @@ def replay(args):
             print(so.decode(errors="replace")[-3000:])
             print(se.decode(errors="replace")[-1500:])
         if "request" in d:
-            print(common.driver("c10", [d["request"]])[0])
+            print(common.driver(d.get("mode", "c10"), [d["request"]])[0])
     return 0
